@@ -292,16 +292,17 @@ def stop_grid_runs(ctx):
     combos = [(e, l) for e in epss for l in limits]
     if ctx.quick:
         combos = rng.sample(combos, 40) + [(2.0, 1), (1.0, 2), (0.5, 1), (0.01, 2), (0.01, 1), (0.25, 1000)]
+    combos += [(5e-4, 700), (2e-4, 700)] if ctx.quick else [(5e-4, 1500), (2e-4, 1500), (1e-4, 2500), (7e-4, 1000)]
     reps = 1 if ctx.quick else 6
     for (eps, limit) in combos:
-        for _ in range(reps):
-            prob = random_problem(rng)
+        for _ in range(reps if eps >= 1e-3 else max(reps, 3)):
+            prob = random_problem(rng) if eps >= 1e-3 else random_problem(rng, 1)     # accuracies below 2^-density: one-dimensional
             n = prob.numberOfFloatVariables
-            r = rng.choice([2.0, 3.5, rng.uniform(1.1, 8)])
+            r = rng.choice([2.0, 3.5, rng.uniform(1.1, 8)]) if eps >= 1e-3 else 2.0
             if limit == 1000 and n >= 3 and eps < 0.05:
                 eps = 0.08
             run = SolverRun(prob, r=r, eps=eps, limit=limit, m=10 if n * 10 <= 50 else 50 // n, tag=prob.name, full_snap=False)
-            mode = rng.choice(["solve", "solve", "solve2", "dgi_over", "dgi_exact", "dgi_part"])
+            mode = rng.choice(["solve", "solve", "solve2", "dgi_over", "dgi_exact", "dgi_part"]) if eps >= 1e-3 else rng.choice(["solve", "solve2", "dgi_part"])
             if mode == "dgi_over":
                 run.dgi(min(limit + rng.randint(0, 2), 60))
             elif mode == "dgi_exact":
